@@ -14,6 +14,7 @@
 import MitmVerif.Lemmas.C41
 import MitmVerif.Model.C41_Lib
 import MitmVerif.Model.C41_Url
+import MitmVerif.Model.C41_Host
 import MitmVerif.Props.C33
 namespace MitmVerif.Props.C41
 open MitmVerif MitmVerif.C41
@@ -708,5 +709,120 @@ example : urlPrettyT toyUrl (L "http://10.0.0.1:8080/x") none = L "http://10.0.0
 example : guardAll (mkLibU toyPrim toyUrl) { okFlow with purl := L "http://example.com/a?x=1" } = true := by decide +kernel
 /-- F-C41d inside the transcribed library: `Host: example.com:80` is not what hostport writes -/
 example : gHost (mkLibU toyPrim toyUrl) { hostFlow with purl := L "http://example.com/a" } = false := by decide +kernel
+
+/-! ### round 5: `is_valid_host`, `_check_bracketed_host` and the IDNA fast paths are transcribed (`Model/C41_Host.lean`,
+over `C13.validHostT` and `C22.parseIp`); for DNS-name hosts no library hypothesis is left -/
+
+section host
+open MitmVerif.C33 (Str)
+
+/-- a host name given as text: ASCII, no `xn--` label, labels of 1…63 DNS-label characters, at most 255 bytes
+(all conditions are computable on the input) -/
+structure DnsHost (h : Str) : Prop where
+  nonempty : h ≠ []
+  ascii : ∀ c ∈ h, c < 128
+  noAce : C13.isInfix C13.acePrefix (toText h) = false
+  lens : labelsLenOk (toText h) = true
+  short : (toText h).length ≤ 255
+  labels : (C13.splitDot (C13.stripDot (toText h))).all C13.labelValid = true
+
+private theorem toText_cons_ascii (c : Nat) (r : Str) (hc : c < 128) : toText (c :: r) = UInt8.ofNat c :: toText r := by
+  simp [toText, utf8Enc1, hc]
+
+private theorem toText_bytes_ascii : ∀ (s : Str), (∀ c ∈ s, c < 128) → ∀ b ∈ toText s, b.toNat < 128 := by
+  intro s
+  induction s with
+  | nil => intro _ b hb; simp [toText] at hb
+  | cons c r ih =>
+    intro hs b hb
+    have hc : c < 128 := hs c (List.mem_cons_self)
+    rw [toText_cons_ascii c r hc] at hb
+    rcases List.mem_cons.mp hb with rfl | hb
+    · simp [UInt8.toNat_ofNat]; omega
+    · exact ih (fun x hx => hs x (List.mem_cons_of_mem _ hx)) b hb
+
+/-- **the IDNA round trip and `is_valid_host` for a DNS name, computed**: `hostname.encode("idna").decode("idna")` gives
+the name back and `is_valid_host` accepts it — formerly the C33 hypotheses `idnaAscii` and `hostValid` -/
+theorem dns_host_lib_facts (H : HostPrim) (h : Str) (d : DnsHost h) :
+    idnaRtT H h = some h ∧ validHostU H h = true := by
+  have hasc : isAsciiStr h = true := by
+    unfold isAsciiStr; rw [List.all_eq_true]; intro c hc; simpa using d.ascii c hc
+  have henc : idnaEncodeT H h = some (toText h) := by
+    unfold idnaEncodeT; simp [d.nonempty, hasc, d.lens]
+  have hall : (toText h).all (fun b => decide (b.toNat < 128)) = true := by
+    rw [List.all_eq_true]; intro b hb; simpa using toText_bytes_ascii h d.ascii b hb
+  have htxt : C13.idnaText (idnaLibOf H) (toText h) = some (toText h) := by
+    unfold C13.idnaText; simp [d.noAce, hall]
+  constructor
+  · unfold idnaRtT; rw [henc]; simp [htxt, toStr_toText_ascii h d.ascii]
+  · unfold validHostU; rw [henc]
+    have hidn : C13.idnaOk (C13.hostLibOf (idnaLibOf H)) (toText h) = true := by
+      unfold C13.idnaOk; simp [d.noAce, hall]
+    have hlen : ¬ (255 < (toText h).length) := by have := d.short; omega
+    show C13.validHost (C13.hostLibOf (idnaLibOf H)) (toText h) = true
+    unfold C13.validHost
+    simp [hidn, hlen, d.labels]
+
+/-- C33's `GetterUrlOk` for a request to a DNS-name host over the transcribed library: only input properties are left -/
+theorem getterUrlOk_of_dns (H : HostPrim) (r : C33.Req)
+    (hm : r.method.map C33.upperC ≠ C33.S "CONNECT") (hs : r.scheme = C33.S "http" ∨ r.scheme = C33.S "https")
+    (hk : MitmVerif.Props.C33.HostOk r.host) (d : DnsHost r.host) (hcolon : 58 ∉ r.host)
+    (hport : 1 ≤ r.port ∧ r.port ≤ 65535) (hslash : r.path.head? = some 47)
+    (hpath : ∀ c ∈ r.path, c < 128 ∧ c ≠ 9 ∧ c ≠ 10 ∧ c ≠ 13) (hrest : C33.normRestPy r.scheme r.path = r.path) :
+    MitmVerif.Props.C33.GetterUrlOk (pyOf (urlPrimOf H)) r where
+  notConnect := hm
+  scheme := hs
+  host := hk
+  port := hport
+  pathSlash := hslash
+  pathAscii := hpath
+  bracketedOk := fun h58 => absurd h58 hcolon
+  idnaAscii := (dns_host_lib_facts H r.host d).1
+  hostValid := (dns_host_lib_facts H r.host d).2
+  restStable := hrest
+
+/-- **F-C41c/d excluded without any library hypothesis**: a flow whose `pretty_url` renders `scheme://name[:port]/path`
+(http/https, lower-case DNS name, port 1…65535, ASCII path stable under urlunparse) and whose Host field is absent or
+exactly `name[:port]` satisfies the URL, URL-parse and Host conjuncts of the guard, for every choice of the remaining
+primitives (text codecs, IDNA slow path). -/
+theorem url_guards_of_dns_name (p : Prim) (H : HostPrim) (f : Flow) (r : C33.Req)
+    (hm : r.method.map C33.upperC ≠ C33.S "CONNECT") (hs : r.scheme = C33.S "http" ∨ r.scheme = C33.S "https")
+    (hk : MitmVerif.Props.C33.HostOk r.host) (d : DnsHost r.host) (hcolon : 58 ∉ r.host)
+    (hport : 1 ≤ r.port ∧ r.port ≤ 65535) (hslash : r.path.head? = some 47)
+    (hpath : ∀ c ∈ r.path, c < 128 ∧ c ≠ 9 ∧ c ≠ 10 ∧ c ≠ 13) (hrest : C33.normRestPy r.scheme r.path = r.path)
+    (hmeth : gMethod (mkLibH p H) f = true) (hu : f.purl = toText (C33.url r))
+    (hh : fieldsOf f.req.hdrs kHost = [] ∨
+      (∃ hpB, fieldsOf f.req.hdrs kHost = [hpB] ∧ p.senc (toText (C33.hostport r.scheme r.host r.port)) = some hpB ∧
+        p.sdec hpB = toText (C33.hostport r.scheme r.host r.port))) :
+    gUrlParse (mkLibH p H) f = true ∧ gUrl (mkLibH p H) f = true ∧ gHost (mkLibH p H) f = true := by
+  have ok := getterUrlOk_of_dns H r hm hs hk d hcolon hport hslash hpath hrest
+  have hv : (urlPrimOf H).validAuthHost r.host = true := (dns_host_lib_facts H r.host d).2
+  apply url_guards_of_getter p (urlPrimOf H) f r ok hmeth hu
+  rcases hh with h0 | ⟨hpB, a, b, c⟩
+  · exact Or.inl h0
+  · exact Or.inr ⟨hpB, a, b, c, hv⟩
+
+/-- the guarded round trip over the library with the host checks inside the model: parameters left are the text codecs,
+str primitives, UTF-8 validity, base64, content codings, three regex searches, the IDNA slow path and JSON -/
+theorem import_export_preserves_host_transcribed {J : Type} (p : Prim) (H : HostPrim) (js : Json J) (pl : PrimLaws p)
+    (jl : JsonLaw js) (fs : List Flow) (hg : ∀ f ∈ fs, guardAll (mkLibH p H) f = true) :
+    ∃ fs', roundtrip (mkLibH p H) js fs = some fs' ∧ InOrder (fun f f' => same (mkLibH p H) f f' = true) fs fs' :=
+  import_export_preserves_url_transcribed p (urlPrimOf H) js pl jl fs hg
+
+/-- IDNA slow path that fails on everything: never asked for names without `xn--` / non-ASCII characters -/
+def noHostPrim : HostPrim := ⟨fun _ => none, fun _ => none⟩
+
+example : DnsHost (C33.S "example.com") :=
+  ⟨by decide +kernel, by decide +kernel, by decide +kernel, by decide +kernel, by decide +kernel, by decide +kernel⟩
+example : validBracketedT (C33.S "::1") = true ∧ validBracketedT (C33.S "1.2.3.4") = false ∧
+    validBracketedT (C33.S "vF.a:b") = true ∧ validBracketedT (C33.S "v.x") = false ∧
+    validBracketedT (C33.S "fe80::1%eth0") = true := by decide +kernel
+example : validHostU noHostPrim (C33.S "a_b.example.") = true ∧ validHostU noHostPrim (C33.S "a..b") = false ∧
+    validHostU noHostPrim (C33.S "exa mple.com") = false ∧ validHostU noHostPrim (C33.S "192.0.2.7") = true := by decide +kernel
+example : guardAll (mkLibH toyPrim noHostPrim) { okFlow with purl := L "http://example.com/a?x=1" } = true := by decide +kernel
+example : urlHostportT (urlPrimOf noHostPrim) (L "http://[::1]:8080/x") = some (L "[::1]:8080") := by decide +kernel
+example : urlHostportT (urlPrimOf noHostPrim) (L "http://[1.2.3.4]/x") = none := by decide +kernel
+
+end host
 
 end MitmVerif.Props.C41
